@@ -5,7 +5,7 @@ IDS=$(.venv/bin/python -c "import json; print(' '.join(c['property_id'] for c in
 OUT=$(mktemp -d /var/tmp/runall.XXXXXX)
 EV="$OUT/ev"; [ "$1" = "--write" ] && EV=""
 for p in $IDS; do
-  ( PYVC_EVIDENCE_DIR="$EV" PYVC_WRITE_LEDGER="${LEDGER:-}" ./vc check $p > $OUT/$p.log 2>&1; echo "$p exit=$?" >> $OUT/summary ) &
+  ( PYVC_EVIDENCE_DIR="$EV" PYVC_WRITE_LEDGER="${LEDGER:-}" ./vc check $p --tier "${TIER:-quick}" > $OUT/$p.log 2>&1; echo "$p exit=$? $(grep -E "^\[" $OUT/$p.log | grep -o "wall=[0-9.]*s")" >> $OUT/summary ) &
   while [ $(jobs -r | wc -l) -ge 4 ]; do sleep 0.5; done
 done
 wait
